@@ -12,7 +12,7 @@ L1 (in-process, catch_unwind + watchdog; outcomes line / PANIC / HANG / CRASH):
       to length 4 (thorough 5) over the 12-symbol multi-byte alphabet HL12 and on the L1a strings.
   L1c `hlr`: find_token_range_heuristic at ARBITRARY byte offsets (inside characters, past the
       end) and arbitrary tokens: the model's Panic must coincide with the implementation's.
-L2 (real binary, watchdog): A14 strings up to length 3 (thorough 4) and grammar/mutation
+L2 (real binary, watchdog): A14 strings up to length 2 + 900 of length 3 (thorough: all up to 4) and grammar/mutation
       generated lines up to 200 chars with multi-byte text, each through `cicada -c <line>` and as
       a two-line script <line> / <sentinel>: no crash status (101/134/139/signal), no timeout,
       no panic message, the sentinel line still runs.
@@ -355,7 +355,10 @@ def judge_l2(line, r):
 
 def layer2(ctx, res, vv, work):
     model, impl = ctx.model["C05"], ctx.bins["c05"]
-    short = all_strings(A14, 4 if ctx.thorough else 3)
+    if ctx.thorough:
+        short = all_strings(A14, 4)
+    else:   # quick: every string up to 2 and a seeded third of those of length 3 (two process spawns per line)
+        short = all_strings(A14, 2) + ctx.rng.sample(["".join(t) for t in itertools.product(A14, repeat=3)], 900)
     rnd = gen_l2_lines(ctx, 6000 if ctx.thorough else 500)
     corpus = ["> f", "< f", "2>&1", "echo a | > f", "a>b>c", "A=1 > f", "echo $(<)", "echo {2147483646..2147483647}",
               "99999999999999999999 + 1", "2 ^ 64", "A='$A'; echo $A", "echo \"a\n$HOME\"", "echo $(ls >)", "echo ${A",
